@@ -259,6 +259,21 @@ def case_merge(rec, case):
     files = [files[i] for i in order]
     route = case.get("route") or gen_route(r, rec.tier)
     out = drive.fresh_out(wd, ".hex")
+    if files and expect_reject is None and r.random() < 0.15:
+        # the output names the SAME file as one of the inputs: in place, through another spelling of the path, or
+        # through a hard link (all inputs are to be read before anything is written)
+        victim = r.choice(files)
+        how = r.choice(["in-place", "other-spelling", "hard-link"])
+        if how == "in-place":
+            out = victim
+        elif how == "other-spelling":
+            out = os.path.join(os.path.dirname(victim), ".", "..", os.path.basename(os.path.dirname(victim)),
+                               os.path.basename(victim))
+        else:
+            if os.path.exists(out):
+                os.unlink(out)
+            os.link(victim, out)
+        rec.count("merge:output-is-an-input:" + how)
     full = dict(case, addr=addr, size=size, placed=placed, scenario=scenario, route=route)
     exc = do_merge(route, out, addr, size, files, wd)
     rec.count("merge:route:" + route)
